@@ -74,6 +74,8 @@ def main() -> int:
     ap.add_argument("--update", action="store_true")
     args = ap.parse_args()
     ids = args.ids or sorted(p.name for p in (VERIF / "seeded").iterdir() if (p / "patch.diff").exists())
+    # kept for the record but judged NOT to break the property as stated (reason in meta.json / DESIGN 8.4): not re-run
+    ids = [i for i in ids if not json.loads((VERIF / "seeded" / i / "meta.json").read_text()).get("not_a_violation")] if not args.ids else ids
     bad = 0
     with ThreadPoolExecutor(args.jobs) as ex:
         for res in ex.map(lambda s: one(s, args.tier), ids):
